@@ -39,9 +39,10 @@ type p01Gen struct {
 	calleeKind int    // -1 until the first call is generated
 	calleeFlag bool
 	simple     int
-	t          bool // P01L: "t is nil"
-	usesVal    bool // P01L: t.val() is called somewhere
-	valHit     bool // P01L: some call of t.val() had a nil receiver
+	t          bool   // P01L: "t is nil"
+	usesVal    bool   // P01L: t.val() is called somewhere
+	valHit     bool   // P01L: some call of t.val() had a nil receiver
+	class      string // suffix of the assertion ids for an input class with a recorded known finding
 }
 
 func (g *p01Gen) emit(s string) int {
@@ -188,8 +189,33 @@ func Harness_P01() {
 	g := &p01Gen{x: true, y: true, g: true, live: true, calleeKind: -1, simple: ndParam("SIMPLE", 9)}
 	g.emit("package p")
 	g.emit("")
-	g.emit("var flag0, flag1, flag2, flag3, calleeflag bool")
-	g.emit("var g *int")
+	g.emit("var flag0, flag1, flag2, flag3, calleeflag, gflag bool")
+	// how the package-level pointer is declared and initialised (GINIT forms; the default is the first only)
+	ginit := ndParam("GFORM", -1)
+	if ginit < 0 {
+		ginit = ndChoice("global_init", ndParam("GINIT", 1))
+	}
+	if ginit == 5 {
+		// NilAway drops the declaration trigger as soon as init() contains ANY assignment to the variable, even a
+		// conditional one (assertion/global: hasGlobalVarAssignInInitFunc): a known false negative, see known_findings.json
+		g.class = "[global_assigned_only_conditionally_in_init]"
+	}
+	switch ginit {
+	case 0, 4, 5:
+		g.emit("var g *int")
+	case 1:
+		g.emit("var g *int = nil")
+	case 2:
+		g.emit("var g *int = (nil)")
+	default:
+		g.emit("var g = new(int)")
+	}
+	switch ginit {
+	case 3, 4:
+		g.g = false
+	case 5:
+		g.g = ndNot(ndBool("gflag"))
+	}
 	g.emit("")
 	g.emit("func Entry() {")
 	g.emit("\tvar x, y *int")
@@ -201,6 +227,20 @@ func Harness_P01() {
 	calleeDeref := 0
 	if g.calleeKind >= 0 {
 		calleeDeref = g.emitCallee()
+	}
+	switch ginit {
+	case 4:
+		g.emit("")
+		g.emit("func init() {")
+		g.emit("\tg = new(int)")
+		g.emit("}")
+	case 5:
+		g.emit("")
+		g.emit("func init() {")
+		g.emit("\tif gflag {")
+		g.emit("\t\tg = new(int)")
+		g.emit("\t}")
+		g.emit("}")
 	}
 	src := g.b.String()
 	ndObserveStr("source", src)
@@ -219,9 +259,9 @@ func (g *p01Gen) judge(src string, calleeDeref, valLine int) {
 			internal = true
 		}
 	}
-	ndAssert("P01.A4.no_internal_failure", !internal)
+	ndAssert("P01.A4.no_internal_failure"+g.class, !internal)
 	reported := len(r.diags) > 0
-	ndAssert("P01.A1.a_reachable_nil_dereference_is_reported", ndImplies(g.panics, reported))
+	ndAssert("P01.A1.a_reachable_nil_dereference_is_reported"+g.class, ndImplies(g.panics, reported))
 	nUnchecked := len(g.unchecked)
 	if calleeDeref > 0 {
 		nUnchecked++
@@ -230,16 +270,16 @@ func (g *p01Gen) judge(src string, calleeDeref, valLine int) {
 		nUnchecked++
 	}
 	if nUnchecked == 0 {
-		ndAssert("P01.A2.a_program_with_only_nil_checked_dereferences_is_not_reported", !reported)
+		ndAssert("P01.A2.a_program_with_only_nil_checked_dereferences_is_not_reported"+g.class, !reported)
 	}
 	if nUnchecked == 1 {
 		lines := r.lines()
 		if calleeDeref > 0 {
-			ndAssert("P01.A3.the_only_unchecked_dereference_is_reported_at_its_line", ndImplies(g.panics, lines[calleeDeref]))
+			ndAssert("P01.A3.the_only_unchecked_dereference_is_reported_at_its_line"+g.class, ndImplies(g.panics, lines[calleeDeref]))
 		} else if g.usesVal {
-			ndAssert("P01.A3.the_only_unchecked_dereference_is_reported_at_its_line", ndImplies(g.valHit, lines[valLine]))
+			ndAssert("P01.A3.the_only_unchecked_dereference_is_reported_at_its_line"+g.class, ndImplies(g.valHit, lines[valLine]))
 		} else {
-			ndAssert("P01.A3.the_only_unchecked_dereference_is_reported_at_its_line", ndImplies(g.uncheckedP[0], lines[g.unchecked[0]]))
+			ndAssert("P01.A3.the_only_unchecked_dereference_is_reported_at_its_line"+g.class, ndImplies(g.uncheckedP[0], lines[g.unchecked[0]]))
 		}
 	}
 }
